@@ -31,7 +31,10 @@ fn finite(h: u64, i: usize, emax: i32) -> f64 {
 }
 
 /// dkind 0: finite 2^±20; 1: specials (±0, ±inf, subnormal, NaN) mixed with finite 2^±300;
-/// 2: finite of magnitude <= 2 (domain of asin / atanh is hit), 3: finite 2^±6 (powi/powf friendly)
+/// 2: finite of magnitude <= 2 (domain of asin / atanh is hit), 3: finite 2^±6 (powi/powf friendly),
+/// 4: rounding-critical values (half-way cases and their neighbours, the largest value below 0.5, integers around
+/// 2^52 / 2^53 where x + 0.5 is not representable, 1 ± ulp): where a hand-written floor/ceil/round/trunc/fract or a
+/// reciprocal-multiply division differs from the IEEE operation
 pub fn elem(dkind: u8, salt: u64, side: u64, i: usize) -> f64 {
     let h = Hx::new().u(salt).u(side).u(i as u64).u(dkind as u64).finish();
     match dkind {
@@ -53,6 +56,28 @@ pub fn elem(dkind: u8, salt: u64, side: u64, i: usize) -> f64 {
         2 => {
             let x = finite(h, i, 3); // |x| in [1/8, 16)
             x / 8.0 // exact scaling: [1/64, 2)
+        }
+        4 => {
+            let sign = if (h >> 11) & 1 == 1 { -1.0 } else { 1.0 };
+            let k = ((h >> 20) % 17) as f64;
+            let up = |v: f64| f64::from_bits(v.to_bits() + 1);
+            let down = |v: f64| f64::from_bits(v.to_bits() - 1);
+            let big = [4503599627370496.0f64, 4503599627370497.0, 4503599627370499.0, 6755399441055745.0, 9007199254740991.0, 9007199254740992.0, 2251799813685248.5, 2251799813685249.5];
+            let v = match (h >> 40) % 12 {
+                0 => k + 0.5,
+                1 => down(k + 0.5),
+                2 => up(k + 0.5),
+                3 => 0.49999999999999994,
+                4 => big[((h >> 28) % 8) as usize],
+                5 => up(1.0),
+                6 => down(1.0),
+                7 => k,
+                8 => down(k + 1.0),
+                9 => up(k + 1.0),
+                10 => (k + 1.0) * 0.1,
+                _ => 1.0 / (k + 3.0),
+            };
+            sign * v
         }
         _ => finite(h, i, 6),
     }
@@ -220,7 +245,7 @@ fn shape_ok(cont: u8, rows: usize, cols: usize) -> bool {
 }
 
 pub fn check_ops(ctx: &mut Ctx, c: &OpCase) -> R {
-    if !shape_ok(c.cont, c.rows, c.cols) || c.form >= NFORMS || c.dkind > 3 || c.rows.saturating_mul(c.cols) > 1 << 17 {
+    if !shape_ok(c.cont, c.rows, c.cols) || c.form >= NFORMS || c.dkind > 4 || c.rows.saturating_mul(c.cols) > 1 << 17 {
         return Ok(());
     }
     let n = c.rows * c.cols;
@@ -387,7 +412,7 @@ pub struct MapCase {
 }
 
 pub fn check_maps(ctx: &mut Ctx, c: &MapCase) -> R {
-    if !shape_ok(c.cont, c.rows, c.cols) || c.map > MAP_POWF || c.dkind > 3 || c.rows.saturating_mul(c.cols) > 1 << 17 {
+    if !shape_ok(c.cont, c.rows, c.cols) || c.map > MAP_POWF || c.dkind > 4 || c.rows.saturating_mul(c.cols) > 1 << 17 {
         return Ok(());
     }
     let n = c.rows * c.cols;
@@ -673,7 +698,7 @@ pub fn run(ctx: &mut Ctx) {
     ctx.rule = "lengths 0..=40 are enumerated completely for every operator form (4 operators x 11 operand forms + negation), every map \
 (29 unary maps, powi -3..=5, powf with 6 exponents) and every container shape (Vector; Matrix in every factorisation r x c of the length, \
 Matrix::empty() for length 0), each with several data sets; then random lengths up to 1e4 (thorough 1e5). Data are a pure function of \
-(kind, salt, index): finite values distinct per position, or a mix with ±0, ±inf, subnormals and NaN. A case is non-trivial when the \
+(kind, salt, index): finite values distinct per position, a mix with ±0, ±inf, subnormals and NaN, or rounding-critical values (half-way cases and neighbours, integers around 2^52..2^53, 1 ± ulp). A case is non-trivial when the \
 length is >= 1 and at least one element is finite and non-zero; distinct by (container, shape, form / map, data kind, salt). \
 Reductions: one case = (n, rows, salt, zero mode) checks all reductions on data sets built for them; zero mode = none / every element a signed zero / about half the elements signed zeros."
         .into();
@@ -688,7 +713,7 @@ Reductions: one case = (n, rows, salt, zero mode) checks all reductions on data 
     let nsets = ctx.scale(3, 10);
     let mut sets: Vec<(u8, u64)> = vec![];
     for j in 0..nsets {
-        for dkind in 0u8..3 {
+        for dkind in [0u8, 1, 2, 4] {
             sets.push((dkind, mix_seed(ctx.seed, "c04/set", j * 4 + dkind as u64) | 1));
         }
     }
@@ -767,7 +792,7 @@ Reductions: one case = (n, rows, salt, zero mode) checks all reductions on data 
         "ops",
         nrand,
         8,
-        || (shape_strategy(maxlen), 0..NFORMS, 0u8..3, any::<u64>()).prop_map(|((cont, rows, cols), form, dkind, salt)| OpCase { cont, rows, cols, form, dkind, salt: salt | 1 }),
+        || (shape_strategy(maxlen), 0..NFORMS, 0usize..4, any::<u64>()).prop_map(|((cont, rows, cols), form, dk, salt)| OpCase { cont, rows, cols, form, dkind: [0u8, 1, 2, 4][dk], salt: salt | 1 }),
         check_ops,
     );
     ctx.run_prop_par(
@@ -775,7 +800,7 @@ Reductions: one case = (n, rows, salt, zero mode) checks all reductions on data 
         nrand,
         8,
         || {
-            (shape_strategy(maxlen), 0u8..=MAP_POWF, -3i32..=5, 0usize..POWF_EXPS.len(), 0u8..4, any::<u64>()).prop_map(|((cont, rows, cols), map, ei, pi, dkind, salt)| MapCase {
+            (shape_strategy(maxlen), 0u8..=MAP_POWF, -3i32..=5, 0usize..POWF_EXPS.len(), 0u8..5, any::<u64>()).prop_map(|((cont, rows, cols), map, ei, pi, dkind, salt)| MapCase {
                 cont,
                 rows,
                 cols,
